@@ -84,6 +84,17 @@ def check(events, candles, warm, fast, aborted=False, want=('c02',)):
                 c('orders_submitted_at_a_minute_end_inside_a_chunk')
             if ev['type'] == 'MARKET' and not ev.get('in_liq'):
                 market_open[ev['o']] = ev
+                if not fast and ev.get('in_match') and ev['symbol'] in minute:
+                    # submitted by a fill callback in the normal simulator: where the path stands now
+                    m_ = minute[ev['symbol']]
+                    book.o[ev['o']]['pi_at_submit'] = m_['pi']
+                    book.o[ev['o']]['minute_ts'] = m_['ts']
+                    # (inside the callback of a fill that is still being processed: the position is that fill's, set below)
+                    par_ = [o_ for o_ in pending_call if (book.o.get(o_) or {}).get('type') != 'MARKET'
+                            and (book.o.get(o_) or {}).get('symbol') == ev['symbol']]
+                    if par_:
+                        book.o[ev['o']]['pi_parent'] = par_[-1]
+                        book.o[ev['o']]['pi_at_submit'] = None
                 cur = (ev.get('pos') or {}).get('cur')
                 if cur is not None:
                     c('market_submits')
@@ -197,6 +208,20 @@ def check(events, candles, warm, fast, aborted=False, want=('c02',)):
                 p = o['price']
                 t = first_occ(m['path'], p, m['pi'])
                 m['fills'] += 1
+                # a MARKET order that a callback submitted at the price where the path stood executes there and then: no
+                # resting order further down the path is filled while it is still pending
+                for mo_, mev_ in market_open.items():
+                    bo_ = book.o.get(mo_) or {}
+                    if bo_.get('status') == 'ACTIVE' and bo_.get('symbol') == sym and bo_.get('minute_ts') == m['ts'] \
+                            and bo_.get('pi_at_submit') is not None and mo_ != o['o'] and t is not None and t > bo_['pi_at_submit']:
+                        t_m = first_occ(m['path'], bo_['price'], bo_['pi_at_submit'])
+                        if t_m is not None and t_m == bo_['pi_at_submit']:
+                            c('market_order_precedence_checks')
+                            v('resting_fill_while_a_market_order_at_the_current_price_is_pending',
+                              f"order {o['type']} {p} filled in minute {m['ts']} (path position {t:.4f}) although a MARKET order priced "
+                              f"{bo_['price']} had been submitted at position {bo_['pi_at_submit']:.4f}, where the path was at that "
+                              f"price, and was still pending", order=o, market=bo_)
+                            break
                 mc = m['c']
                 if p in (mc[1], mc[2], mc[3], mc[4]):
                     c('fills_at_candle_extreme_or_open_close')
@@ -222,6 +247,9 @@ def check(events, candles, warm, fast, aborted=False, want=('c02',)):
                           pi=m['pi'])
                         break
                 m['pi'] = t
+                for mo_ in market_open:
+                    if (book.o.get(mo_) or {}).get('pi_parent') == o['o']:
+                        book.o[mo_]['pi_at_submit'] = t
             elif sym in chunk:
                 ch = chunk[sym]
                 ch['fills'] += 1
